@@ -85,6 +85,26 @@ func (w *World) SynIssues() []Issue {
 		if f.Err != nil {
 			msg := f.Err.Error()
 			out = append(out, Issue{Rule: "A-SYN", Construct: "emitted file does not parse", Msg: fmt.Sprintf("%s does not parse: %s", name, firstLine(msg))})
+			continue
+		}
+		// A-INDENT: the emitter's indentation level is back at zero between declarations. The raw text (before gofmt) shows it: every
+		// top-level declaration starts in column 1. A level left over by one declaration shifts the wrapping width of every later
+		// comment (Emitter.Comment wraps at maxLineLength - indent), which gofmt does not undo — the bytes of a declaration then
+		// depend on what was emitted before it (e.g. on whether unmarshalers are emitted at all).
+		if f.AST != nil {
+			for _, d := range f.AST.Decls {
+				if col := f.Fset.Position(d.Pos()).Column; col != 1 {
+					what := "declaration"
+					switch x := d.(type) {
+					case *ast.FuncDecl:
+						what = "func " + x.Name.Name
+					case *ast.GenDecl:
+						what = x.Tok.String() + " declaration"
+					}
+					out = append(out, Issue{Rule: "A-INDENT", Construct: "top-level declaration emitted with leftover indentation", Msg: fmt.Sprintf("%s: the top-level %s starts in column %d of the emitted text: an earlier declaration left the emitter's indentation level raised, so later comments are wrapped narrower than in a run that does not emit that declaration", name, what, col)})
+					break
+				}
+			}
 		}
 	}
 	return out
@@ -694,6 +714,14 @@ func (w *World) checkDefault(fm *FileModel, p *Prop, S *Struct, F *Field, path s
 				other = "the value of " + h.A.Name
 			}
 			out = append(out, Issue{Rule: "A-DEF", Construct: "assigned literal is not this property's default", Msg: fmt.Sprintf("%s: the field is assigned %s (%s), not the default stated for this property", path, a.Expr, other)})
+		}
+		if ka := p.Spec.Atoms["default key"]; ka != nil && p.Spec.Default == "map" && fm.Structs[strings.TrimPrefix(F.Type, "*")] == nil && strings.Contains(a.Expr, ":") {
+			// the default of a MAP-typed field (a property-less object): its keys are data, they are the schema's keys verbatim — one
+			// whole quoted piece of the key's text each (a struct-typed default turns keys into field selectors instead; not this case)
+			want := "\"" + AtomText(ka) + "\""
+			if !strings.Contains(a.Expr, want+":") && !strings.Contains(a.Expr, want+" :") {
+				out = append(out, Issue{Rule: "A-DEF", Construct: "key of a map default is not the schema's key verbatim", Msg: fmt.Sprintf("%s: the map-typed field is assigned %s: its key is not the (quoted) default key as written in the schema — the decoded default has other keys than the schema's", path, normLine(a.Expr))})
+			}
 		}
 		if p.Spec.Kind == "string" && p.Spec.Default == "scalar" && strings.Contains(strings.TrimLeft(a.Expr, "&("), "`") {
 			// inside a raw string literal the Go scanner drops every carriage return and a back-quote ends the literal: the
